@@ -24,6 +24,35 @@ def dumpAr (bs : Bytes) : String :=
 def dumpView (v : Spec.Ar.View) : String :=
   s!"{out v.name}:{v.timestamp}:{v.ownerID}:{v.groupID}:{out v.mode}:{v.size}:{fingerprint v.data}"
 
+/-! sources given as runs: "L<hex>" literal bytes, "Z<n>" n zero bytes, comma-separated -/
+
+def readSegs (s : String) : Option (List Seg) :=
+  (s.splitOn ",").mapM (fun t =>
+    if t.startsWith "L" then (hx (t.drop 1).toString).map Seg.lit
+    else if t.startsWith "Z" then (t.drop 1).toString.toNat?.map Seg.zeros
+    else none)
+
+def showSegs (segs : List Seg) : String :=
+  String.intercalate "," (segs.map (fun | .lit b => "L" ++ out b | .zeros n => s!"Z{n}"))
+
+/-- first 16 bytes and last byte instead of a fingerprint of the whole content -/
+def edges (size : Nat) (rd : Nat → Nat → Bytes) (dataOff : Nat) : String :=
+  out (rd dataOff (min size 16)) ++ "/" ++ (if size = 0 then "" else out (rd (dataOff + size - 1) 1))
+
+def dumpEntryS (segs : List Seg) (e : Entry) : String :=
+  s!"{out e.name}:{e.timestamp}:{e.ownerID}:{e.groupID}:{out e.fileMode}:{e.size}:{edges e.size.toNat (readAtS segs) e.dataOff}"
+
+def dumpArS (segs : List Seg) : String :=
+  match Ar.readAllS segs with
+  | none => "err-magic"
+  | some (es, e) => "[" ++ String.intercalate ";" (es.map (dumpEntryS segs)) ++ "] end=" ++ dumpEnd e ++ s!" steps={es.length}"
+
+def dumpViewS (mk : Spec.Ar.Member × Nat) : String :=
+  let m := mk.1
+  let size := m.data.length + mk.2
+  let rd (off n : Nat) : Bytes := readAtS [.lit m.data, .zeros mk.2] off n
+  s!"{out m.name}:{m.timestamp.getD 0}:{m.ownerID.getD 0}:{m.groupID.getD 0}:{out m.mode}:{size}:{edges size rd 0}"
+
 def readOptNat : List String → Option (Option Nat × List String)
   | "-" :: ts => some (none, ts)
   | t :: ts => do pure (some (← t.toNat?), ts)
@@ -68,6 +97,22 @@ def debHandler : Handler
       let bs := Spec.Ar.build ms
       pure (out bs ++ " [" ++ String.intercalate ";" (ms.map (fun m => dumpView (Spec.Ar.view m))) ++ "] "
         ++ bool01 (ms.all Spec.Ar.wfMember))
+  | "arsgen", ts => do
+      let (mks, _) ← readCounted (fun ts => do
+        let (m, ts) ← readMember ts
+        match ts with
+        | k :: ts => pure ((m, ← k.toNat?), ts)
+        | [] => none) ts
+      -- well-formedness of the materialised member, evaluated without materialising it
+      let wf := mks.all (fun (m, k) => Spec.Ar.wfMember { m with data := [] } &&
+        decide ((Str.fmtNat (m.data.length + k)).length ≤ 10))
+      pure (showSegs (Spec.Ar.buildSegs mks) ++ " [" ++ String.intercalate ";" (mks.map dumpViewS) ++ "] " ++ bool01 wf)
+  | "arsparse", [s] => do
+      let segs ← readSegs s
+      pure (dumpArS segs)
+  | "arsspec", [s, expected, n] => do
+      let segs ← readSegs s
+      pure (dumpArS segs ++ " ; spec=" ++ expected ++ " end=eof steps=" ++ n)
   | "arspec", [s, expected, n] => do
       let s ← hx s
       pure (dumpAr s ++ " ; spec=" ++ expected ++ " end=eof steps=" ++ n)
